@@ -8,6 +8,9 @@
 #include <sys/types.h>
 #include <dirent.h>
 #include <openssl/rand.h>
+#include <sys/syscall.h>
+#include <sys/time.h>
+#include <time.h>
 
 // ================================================================ clock
 SimClock g_clock;
@@ -24,6 +27,32 @@ extern "C" time_t time(time_t *t)
 	if (t)
 		*t = v;
 	return v;
+}
+
+// GnuTLS keys the ChaCha nonce of every freshly initialised per-thread DRBG with
+// clock_gettime(CLOCK_REALTIME) (tv_sec), so the wall clock is a source of nondeterminism for
+// its signatures. Every real-time clock therefore reads the simulated instant; the other
+// clocks (the harness itself uses CLOCK_MONOTONIC for budgets) go to the kernel.
+extern "C" int clock_gettime(clockid_t id, struct timespec *ts)
+{
+	if (id == CLOCK_REALTIME || id == CLOCK_REALTIME_COARSE) {
+		if (ts) {
+			ts->tv_sec = (time_t)g_clock.now();
+			ts->tv_nsec = 0;
+		}
+		return 0;
+	}
+	return (int)syscall(SYS_clock_gettime, id, ts);
+}
+
+extern "C" int gettimeofday(struct timeval *tv, void *tz)
+{
+	(void)tz;
+	if (tv) {
+		tv->tv_sec = (time_t)g_clock.now();
+		tv->tv_usec = 0;
+	}
+	return 0;
 }
 
 // ================================================================ allocator
